@@ -25,6 +25,7 @@ CONSTANTS
     EffSets,      \* effect chains (sequences of effect ids) a dataset may have
     Caches,       \* cache kinds of datasets: "mem" (MemoryCache), "none" (NoCache)
     CollKinds,    \* which collection constructors a coll node may use
+    NShards, Shard,  \* generation is split over NShards TLC processes: this one observes graphs whose hash is Shard
     MinNodes,     \* calls are made on graphs of at least this many nodes (>= 1)
     BothPresets,  \* TRUE: a dataset may have pre-set AND default options at once
     Sharing,      \* TRUE: a node may be used by several parents (DAGs); FALSE: trees
@@ -168,6 +169,14 @@ DictsFrom(i, rel) ==
 DictsFor(ms) == DictsFrom(1, RelClosure(ms, 4))
 Dicts == DictsFor(Mentions(Root))
 
+KindCode(k) ==
+    CASE k = "val" -> 1 [] k = "opt" -> 2 [] k = "pred" -> 3 [] k = "tmpl" -> 4 [] k = "apply" -> 5 [] k = "bind" -> 6
+      [] k = "switch" -> 7 [] k = "case" -> 8 [] k = "coalesce" -> 9 [] k = "coll" -> 10 [] k = "map" -> 11
+      [] k = "with" -> 12 [] k = "cached" -> 13 [] k = "ds" -> 14 [] k = "dsof" -> 15 [] k = "fnapp" -> 16 [] OTHER -> 17
+RECURSIVE SumSeq(_, _)
+SumSeq(s, i) == IF i > Len(s) THEN 0 ELSE s[i] + SumSeq(s, i + 1)
+GraphHash == SumSeq([i \in 1 .. Len(nodes) |-> i * KindCode(nodes[i].k) + SumSeq(ChildSlots(nodes[i]), 1)], 1)
+
 MCNext ==
     \/ \E k \in Kinds : Choose(k)
     \/ want # "none" /\ \E nd \in Cands : WellFormed(nd) /\ Add(nd)
@@ -183,6 +192,7 @@ MCNext ==
                 /\ (phase = "calls" => Cardinality(lateRegs) < 2 /\ (taken => \A h \in lateRegs : hist[h].prev = 0))
              /\ Register(d, DispVals[i], impl)
     \/ Len(nodes) >= MinNodes /\ KindOf(Root) \in RootKinds /\ (RequireComplete => Complete) /\ cur = NoDict /\ want = "none"
+          /\ (NShards > 1 => GraphHash % NShards = Shard)
           /\ \E o \in Dicts : Pick(o)
     \/ Observe
 
